@@ -135,6 +135,11 @@ class Primitive(Trimesh):
         kwargs.update(self.to_dict())
         # remove the type indicator, i.e. `Cylinder`
         kwargs.pop("kind")
+        # parameters which are not part of the serialized
+        # form, i.e. `sections` and `subdivisions`
+        for key in self.primitive._defaults:
+            if key not in kwargs:
+                kwargs[key] = getattr(self.primitive, key)
         # create a new object with kwargs
         primitive_copy = type(self)(**kwargs)
 
